@@ -388,6 +388,12 @@ def extra(ctx):
             "pairs_checked": len(live),
             "unresolved": len(unresolved),
             "known_findings_listed": sorted(known),
+            # Props/C05.v, C05_current_source_safe(_now): no race and no deadlock for threads conforming
+            # to the WHOLE table + acyclic order, in force when nothing is listed
+            "whole_table_theorem_in_force": not known,
+            "atomic_fields": tbl.get("atomic_fields") or [],
+            "fresh_receiver_helpers": sorted((tbl.get("fresh_receiver_helpers") or {}).keys()),
+            "fresh_receiver_accesses_skipped": sorted((tbl.get("fresh_receiver_accesses_skipped") or {}).keys()),
             "known_findings_still_present": sorted(known & present),
             "known_findings_no_longer_present": sorted(known - present),
         },
